@@ -36,11 +36,11 @@ func (c15) Describe() CheckInfo {
 		},
 		RealCode:       []string{"gopatch main()/mainCmd.Run, findFiles/findGoFiles, internal/*"},
 		Stubs:          []string{"package os (simulated filesystem incl. symlinks, fifo, shuffled readdir)", "path/filepath Walk re-hosted on the simulated os", "io/ioutil"},
-		RequiredProbes: []string{"excluded-dir-nested", "symlink-to-dir", "symlink-to-file", "dir-named-like-go-file", "overlapping-args", "duplicate-args", "explicit-file-in-excluded-dir", "dotdot-respelling", "absolute-arg", "non-go-file", "absolute-noncanonical-arg", "readdir-shuffled", "permuted-rerun", "dot-named-go-file", "hard-link", "non-directory-with-excluded-name", "symlink-argument", "unparseable-file-in-requested-set", "excluded-dir-named-like-go-file", "argument-through-symlinked-directory", "name-with-pattern-characters", "resolved-path-beyond-path-max", "many-unparseable-files", "file-named-like-sibling-directory"},
+		RequiredProbes: []string{"excluded-dir-nested", "symlink-to-dir", "symlink-to-file", "dir-named-like-go-file", "overlapping-args", "duplicate-args", "explicit-file-in-excluded-dir", "dotdot-respelling", "absolute-arg", "non-go-file", "absolute-noncanonical-arg", "readdir-shuffled", "permuted-rerun", "dot-named-go-file", "hard-link", "non-directory-with-excluded-name", "symlink-argument", "unparseable-file-in-requested-set", "excluded-dir-named-like-go-file", "argument-through-symlinked-directory", "name-with-pattern-characters", "resolved-path-beyond-path-max", "many-unparseable-files", "file-named-like-sibling-directory", "names-differing-only-in-case", "many-skipped-generated-files-under-descriptor-limit"},
 	}
 }
 
-var c15DirNames = []string{"a", "b", "pkg", "internal", "cmd", "vendor", "testdata", ".git", ".x", "_gen", "_", "vendor2", "testdata_old", "x.go", "sub", "v.endor", "Vendor", "_old.go", ".bak.go", "vendor.go", "testdata.go", ".go", "api[v2]", "apiv", "api2", "w*ld", "wild", "pkg-v2", "a.b", "a-b"}
+var c15DirNames = []string{"a", "b", "pkg", "internal", "cmd", "vendor", "testdata", ".git", ".x", "_gen", "_", "vendor2", "testdata_old", "x.go", "sub", "v.endor", "Vendor", "_old.go", ".bak.go", "vendor.go", "testdata.go", ".go", "api[v2]", "apiv", "api2", "w*ld", "wild", "pkg-v2", "a.b", "a-b", "2024", "01-02"}
 
 func c15Excluded(name string) bool {
 	return name == "vendor" || name == "testdata" || strings.HasPrefix(name, ".") || strings.HasPrefix(name, "_")
@@ -98,13 +98,20 @@ func (c15) Gen(env *Env, seed uint64, tier string, i int) *Case {
 		switch roll := r.Intn(100); {
 		case roll < 62:
 			name := fmt.Sprintf("f%d.go", id)
-			switch r.Intn(12) {
+			switch r.Intn(13) {
 			case 0:
 				name = fmt.Sprintf(".h%d.go", id)
 			case 1:
 				name = fmt.Sprintf("_u%d.go", id)
 			case 2:
 				name = fmt.Sprintf("f%d_test.go", id)
+			case 5:
+				// two names that differ only in case, side by side
+				name = fmt.Sprintf("Report%d.go", id)
+				sib := d + "/" + fmt.Sprintf("report%d.go", id)
+				c.SetNode(world.NodeSpec{Path: sib, Kind: "file", Data: c15GoFile(id + 700)})
+				gofiles = append(gofiles, sib)
+				c.Extra["case_pair"] = "1"
 			case 4:
 				// a file named like a sibling directory plus ".go": "pkg.go" next to
 				// "pkg/" - their order as paths is not their order in a directory walk
@@ -214,6 +221,24 @@ func (c15) Gen(env *Env, seed uint64, tier string, i int) *Case {
 			c.SetNode(world.NodeSpec{Path: p, Kind: "file", Data: c15GoFile(id)})
 			gofiles = append(gofiles, p)
 		}
+	}
+	if r.Chance(1, 30) {
+		// dozens of generated files, --skip-generated and a tight descriptor limit:
+		// skipping a file must release what was opened for it
+		for k := 0; k < 36; k++ {
+			id++
+			p := fmt.Sprintf("%s/api/g%02d.pb.go", ProjDir, k)
+			c.SetNode(world.NodeSpec{Path: p, Kind: "file", Data: append([]byte("// Code generated by protoc-gen-go. DO NOT EDIT.\n\n"), c15GoFile(id)...)})
+			gofiles = append(gofiles, p)
+		}
+		for k := 0; k < 3; k++ {
+			id++
+			p := fmt.Sprintf("%s/svc/s%d.go", ProjDir, k)
+			c.SetNode(world.NodeSpec{Path: p, Kind: "file", Data: c15GoFile(id)})
+			gofiles = append(gofiles, p)
+		}
+		c.Targets = append(c.Targets, ProjDir)
+		c.Extra["many_generated"] = "1"
 	}
 	if r.Chance(1, 40) {
 		// a dozen requested files that do not parse, and good ones after them
@@ -355,6 +380,10 @@ func (c15) Gen(env *Env, seed uint64, tier string, i int) *Case {
 		c.Targets = []string{ProjDir}
 	}
 	c.Flags = Flags{Verbose: r.Chance(1, 4), SkipImport: r.Chance(1, 5), SkipGen: r.Chance(1, 5)}
+	if c.Extra["many_generated"] == "1" {
+		c.Flags.SkipGen = true
+		c.Spec.Knobs.MaxOpenFiles = r.Range(8, 16)
+	}
 	c.Spec.Knobs.ShuffleReaddir = r.Chance(2, 3)
 	c.Extra["spell"] = fmt.Sprint(r.Uint64())
 	c.Extra["absargs"] = strings.Join(c.Targets, "\n")
@@ -478,6 +507,12 @@ func c15Reference(c *Case, w *world.World) []string {
 	}
 	var out []string
 	for p := range set {
+		if c.Flags.SkipGen {
+			// with --skip-generated a generated file is legitimately left alone (C18)
+			if n := w.Peek(p); n != nil && bytes.HasPrefix(n.Data, []byte("// Code generated")) {
+				continue
+			}
+		}
 		out = append(out, p)
 	}
 	sort.Strings(out)
@@ -539,6 +574,12 @@ func (c15) Eval(env *Env, c *Case) []Violation {
 	}
 	if c.Extra["dir_stem_file"] == "1" {
 		env.Probe("file-named-like-sibling-directory")
+	}
+	if c.Extra["case_pair"] == "1" {
+		env.Probe("names-differing-only-in-case")
+	}
+	if c.Extra["many_generated"] == "1" {
+		env.Probe("many-skipped-generated-files-under-descriptor-limit")
 	}
 	if c.Extra["beyond_path_max"] == "1" {
 		env.Probe("resolved-path-beyond-path-max")
@@ -718,7 +759,10 @@ func (c15) Eval(env *Env, c *Case) []Violation {
 			// -v log lines: "<absolute path as gopatch knows it>: patched"
 			var kept []string
 			for _, l := range strings.SplitAfter(out, "\n") {
-				if strings.HasPrefix(l, "/") && strings.HasSuffix(l, ": patched\n") {
+				if strings.HasPrefix(l, "/") && (strings.HasSuffix(l, ": patched\n") || strings.HasSuffix(l, ": skipped\n")) {
+					continue
+				}
+				if strings.HasPrefix(l, "generated file /") && strings.HasSuffix(l, ": skipped\n") {
 					continue
 				}
 				kept = append(kept, l)
